@@ -27,21 +27,21 @@ type ForeignMember struct {
 }
 
 type ForeignItem struct {
-	ID      string          `json:"id"`
-	RS      int             `json:"rs"`
-	Format  string          `json:"format"` // ustar | pax | gnu
-	Shape   string          `json:"shape"`  // "./" | "/" | "top/" | "."
-	Members []ForeignMember `json:"members"`
+	ID      string            `json:"id"`
+	RS      int               `json:"rs"`
+	Format  string            `json:"format"` // ustar | pax | gnu
+	Shape   string            `json:"shape"`  // "./" | "/" | "top/" | "."
+	Members []ForeignMember   `json:"members"`
 	Names   map[string]string `json:"names"`
-	Seed    int64           `json:"seed"`
+	Seed    int64             `json:"seed"`
 	// Spellings to try for every member: subset of abs, rel, dot
 	Spellings []string `json:"spellings"`
 }
 
 type ForeignResult struct {
 	BehResult
-	Root   string   `json:"root"`
-	Sample []string `json:"sample"`
+	Root   string         `json:"root"`
+	Sample []string       `json:"sample"`
 	Kinds  map[string]int `json:"kinds"`
 }
 
